@@ -1034,3 +1034,24 @@ Example orelse_preferred_example :
   let o := mkBranch false true 2 2 false in
   branch_wf b = true /\ no_dead_code o = true /\ orelse_preferred b o = false /\ orelse_preferred o b = true.
 Proof. vm_compute. repeat split. Qed.
+
+(* ---- round 5: the bound analysis of simplify_boolean_expressions only compares what is comparable ---- *)
+Lemma admitted_orderable k1 k2 :
+  bound_admitted k1 = true -> bound_admitted k2 = true -> orderable k1 k2 = true.
+Proof. destruct k1, k2; simpl; intros H1 H2; try reflexivity; discriminate. Qed.
+
+(* whatever constants an and/or compares one operand with: the pairwise comparisons among the
+   COLLECTED bounds are all defined (no TypeError can come out of them) *)
+Theorem collected_bounds_comparisons_total (ks : list bkind) :
+  comparisons_total (collected_bounds ks) = true.
+Proof.
+  unfold comparisons_total, collected_bounds.
+  apply forallb_forall. intros a Ha. apply forallb_forall. intros b Hb.
+  apply filter_In in Ha. apply filter_In in Hb.
+  apply admitted_orderable; [apply Ha|apply Hb].
+Qed.
+
+(* the guard is necessary, not only sufficient: admitting any further kind next to int breaks totality *)
+Theorem wider_guard_not_total (k : bkind) :
+  bound_admitted k = false -> comparisons_total [BkInt; k] = false.
+Proof. destruct k; simpl; intros H; try reflexivity; discriminate. Qed.
